@@ -57,7 +57,7 @@ def sortBy {α} (lt : α → α → Bool) (l : List α) : List α := l.foldr (in
 def jtag (t : Tag) : Json := .arr #[jnat (if t.plain then 1 else 0), .str t.name, .str t.value]
 
 def jentry (e : Entry) : Json :=
-  Json.mkObj [("k", jnat e.kind), ("c", .str e.cat), ("n", .str e.name), ("v", jhex e.value),
+  Json.mkObj [("k", jnat e.kind), ("c", .str e.cat), ("n", .str e.name), ("v", jvalue e.value),
     ("t", .arr ((sortBy tagLt e.tags).map jtag).toArray)]
 
 def entryLt (a b : Entry) : Bool :=
@@ -167,12 +167,7 @@ def stepOp (st : St) (j : Json) : St × Json :=
     | none => (st.delSess i, "ok")
   | _ =>
     match activate st i with
-    | .error e =>
-      -- the profile name was swapped out of the session before the failed lookup
-      let st := match st.getSess i with
-        | some ss => st.setSess i { ss with profile := "" }
-        | none => st
-      (st, jerr e.name)
+    | .error e => (st, jerr e.name)
     | .ok (st, s) =>
       let db := st.view i
       let k := nat! j "k"
@@ -182,8 +177,8 @@ def stepOp (st : St) (j : Json) : St × Json :=
         | .error e => (st, jerr e.name)
       else
       let mop : Option Op := match op with
-        | "insert" => some (.insert k (str! j "c") (str! j "n") (hex! j "v") (parseTags j "t") (intOpt j "e"))
-        | "replace" => some (.replace k (str! j "c") (str! j "n") (hex! j "v") (parseTags j "t") (intOpt j "e"))
+        | "insert" => some (.insert k (str! j "c") (str! j "n") (value! j "v") (parseTags j "t") (intOpt j "e"))
+        | "replace" => some (.replace k (str! j "c") (str! j "n") (value! j "v") (parseTags j "t") (intOpt j "e"))
         | "remove" => some (.remove k (str! j "c") (str! j "n"))
         | "remove_all" => some (.removeAll (kindOpt j) (strOpt j "c") (filterOpt j "f"))
         | "fetch" => some (.fetch k (str! j "c") (str! j "n"))
